@@ -22,6 +22,16 @@ use crate::plan::{Op, Outcome, Plan, Stats, Violation};
 use crate::prng::{mix, Digest, Rng};
 use crate::{set_phase, Tier};
 
+/// Endings whose depth-5 search visits on the order of 10^5 positions.
+pub const BIG_SEARCH_FENS: [&str; 4] = [
+    "8/5k2/2n2ppp/8/8/2N2PPP/5K2/8 w - - 0 1",
+    "8/4k3/1r3pp1/8/8/1R3PP1/4K3/8 w - - 0 1",
+    "8/3k4/2b1pp2/8/8/2B1PP2/3K4/8 b - - 0 1",
+    "6k1/5pp1/8/3q4/3Q4/8/5PP1/6K1 w - - 0 1",
+];
+
+static LARGEST_SEARCH: AtomicU64 = AtomicU64::new(0);
+
 #[derive(Clone, Debug, PartialEq)]
 struct Answer {
     /// (from, to, promo, kind) of the returned move, or the error name
@@ -50,7 +60,15 @@ pub fn gen_plan(property: &str, seed: u64, index: u64, tier: Tier) -> Plan {
         "C09" => {
             let mode = rng.below(10);
             let depth: u8;
-            if mode < 6 {
+            let mut big = false;
+            if index % 8 == 3 {
+                // big search: > 10^5 positions in one context (depth 5 on an ending, warmed by earlier
+                // searches), so that whatever accumulates in the shared state really accumulates
+                start = Pos::from_fen(*rng.pick(&BIG_SEARCH_FENS[..])).unwrap();
+                depth = 5;
+                big = true;
+                scenario = "big-search";
+            } else if mode < 6 {
                 // the steered slice: sparse boards, deep enough for cross-depth transpositions
                 let (_, s) = if rng.chance(2, 3) {
                     choose_start(&mut rng, &[(StartKind::Endgame, 1)])
@@ -68,9 +86,9 @@ pub fn gen_plan(property: &str, seed: u64, index: u64, tier: Tier) -> Plan {
                 scenario = "middlegame";
             }
             knobs.insert("depth".into(), depth as i64);
-            knobs.insert("iterations".into(), if thorough { 40 } else { 10 });
+            knobs.insert("iterations".into(), if big { if thorough { 6 } else { 2 } } else if thorough { 40 } else { 10 });
             // initial cache contents: empty, or warmed by 0..3 earlier searches run sequentially
-            let warm = rng.below(4);
+            let warm = if big { rng.range(1, 2) } else { rng.below(4) };
             let mut pos = start.clone();
             for _ in 0..warm {
                 let legal = pos.legal_moves();
@@ -161,6 +179,7 @@ fn workload(plan: &Plan, workers: usize, steal: usize) -> Answer {
             Op::Search(_) => {
                 let before = snapshot(&board);
                 let r = alpha_beta_search(&mut ctx, &mut board, &mut gen);
+                LARGEST_SEARCH.fetch_max(ctx.searched_position_count() as u64, Ordering::SeqCst);
                 let after = snapshot(&board);
                 answer = Answer {
                     result: match r {
@@ -452,6 +471,13 @@ pub fn exec(plan: &Plan) -> Outcome {
     stats.add("simpool/root-tasks-so-far", tasks as u64);
     stats.add("fault/out-of-order-task-start-so-far", ooo as u64);
     stats.add("steps", switches.load(Ordering::SeqCst));
+    let largest = LARGEST_SEARCH.swap(0, Ordering::SeqCst);
+    if largest >= 25_000 {
+        stats.bump("probe/search-of-25k-positions-or-more");
+    }
+    if largest >= 100_000 {
+        stats.bump("probe/search-of-100k-positions-or-more");
+    }
     out.interleavings = sigs.lock().unwrap().clone();
     out.stats = stats;
     out.digest = digest.0;
